@@ -43,6 +43,8 @@ type Sched struct {
 	readers []*mrand.ChaCha8
 	libSeed uint64
 	seq     int64
+
+	buggifyHits int
 }
 
 // SwitchRec is one context switch that actually happened.
@@ -148,8 +150,15 @@ func (s *Sched) BuggifyAt(site string) bool {
 	if s.cur < 0 {
 		return false
 	}
-	return s.Buggify[site]
+	if s.Buggify[site] {
+		s.buggifyHits++
+		return true
+	}
+	return false
 }
+
+// BuggifyHits is how often a cooperative fault point actually fired.
+func (s *Sched) BuggifyHits() int { return s.buggifyHits }
 
 // Run executes the tasks under the scheduler and returns when all have finished.
 func (s *Sched) Run(tasks []func()) {
